@@ -268,7 +268,9 @@ Lemma encrypt_cek_hdr a s prot unprot r d cek p2 r2 ek :
 Proof.
   intros N H. unfold encrypt_cek in H.
   destruct (fam_is (ea_family a) "RSA").
-  { inv_bind H. inv_bind H. inversion H; subst. auto. }
+  { inv_bind H. inv_bind H.
+    match type of H with (if ?b then _ else _) = _ => destruct b; [discriminate |] end.
+    inv_bind H. inversion H; subst. auto. }
   destruct (fam_is (ea_family a) "AESKW").
   { inv_bind H. inv_bind H. inversion H; subst. auto. }
   destruct (fam_is (ea_family a) "AESGCMKW").
@@ -663,7 +665,10 @@ Proof.
           assert (AHN : forall p rr k v p' rr', r_header rr = PNone -> add_header Compact p rr k v = Ok (p', rr') -> r_header rr' = PNone)
             by (intros p rr k v p' rr' E A; unfold add_header in A; inversion A; subst; exact E).
           pose proof (Hc eq_refl) as R0.
-          destruct (fam_is (ea_family a) "RSA"). { inv_bind EC. inv_bind EC. inversion EC; subst. exact R0. }
+          destruct (fam_is (ea_family a) "RSA").
+          { inv_bind EC. inv_bind EC.
+            match type of EC with (if ?b then _ else _) = _ => destruct b; [discriminate |] end.
+            inv_bind EC. inversion EC; subst. exact R0. }
           destruct (fam_is (ea_family a) "AESKW"). { inv_bind EC. inv_bind EC. inversion EC; subst. exact R0. }
           destruct (fam_is (ea_family a) "AESGCMKW").
           { inv_bind EC. inv_bind EC. inv_bind EC. inv_bind EC. inv_bind EC.
@@ -721,9 +726,103 @@ Proof.
       - intros hs' algv' a' X1 X2 X3. rewrite (DET hs' algv' a' X1 X2 X3). auto.
       - unfold draw_of in BIV. destruct (d_rec d); [reflexivity | exact BIV]. }
     simpl in FO.
-    eapply (single_rt_pbes2 O C g o d x r); eauto.
-    - intros hs' algv' a' X1 X2 X3. rewrite (DET hs' algv' a' X1 X2 X3). Show. repeat split; assumption.
-    - unfold draw_of in BS. destruct (d_rec d); [reflexivity | exact BS].
+    eapply (single_rt_pbes2 O C g o d x r); eauto;
+      try (intros hs' algv' a' X1 X2 X3; rewrite (DET hs' algv' a' X1 X2 X3); repeat split; assumption);
+      try (unfold draw_of in BS; destruct (d_rec d); [reflexivity | exact BS]).
 Qed.
 
 End Single.
+
+(* ================= the three serializations ================= *)
+Section Serializations.
+Variable O : oracles.
+Hypothesis C : contracts O.
+Variable g : registry.
+Hypothesis CH : forall hs, o_check_header O (PDict hs) true = Ok tt.
+Hypothesis BT : forall k iv a m c t, o_gcm_enc O k iv a m = Ok (c, t) -> bytes_ok t = true.
+
+Theorem compact_rt o d x r :
+  e_ser o = Compact -> e_recips o = [r] -> r_header r = PNone ->
+  perform_encrypt O g o d = Ok x ->
+  wf (e_prot o) -> hdr_wf (e_unprot o) -> recip_ok O r (draw_of (d_rec d)) ->
+  (forall encv e, hitem (e_prot o) "enc" = Ok encv -> get_enc g encv = Ok e ->
+     lenN (d_civ d) * 8 = ee_iv_size e /\ lenN (d_cek d) * 8 = ee_cek_size e) ->
+  perform_decrypt O g (obj_of o x) = Ok (e_plain o) /\
+  dec_aad O (obj_of o x) = Ok (x_b64prot x) /\ j_prot (obj_of o x) = x_prot x.
+Proof.
+  intros S R RH H Wp Wu RO SZ. split.
+  - eapply (single_rt O C g CH BT o d x r); eauto.
+  - split; [| reflexivity]. rewrite (aad_enc_eq_dec O g o d x H).
+    apply perform_encrypt_inv in H. destruct H as [? [? [? [_ [_ [_ [_ [A _]]]]]]]]. rewrite A, S. reflexivity.
+Qed.
+
+Theorem flat_rt o d x r :
+  e_ser o = Flat -> e_recips o = [r] ->
+  perform_encrypt O g o d = Ok x ->
+  wf (e_prot o) -> hdr_wf (e_unprot o) -> recip_ok O r (draw_of (d_rec d)) ->
+  (forall encv e, hitem (e_prot o) "enc" = Ok encv -> get_enc g encv = Ok e ->
+     lenN (d_civ d) * 8 = ee_iv_size e /\ lenN (d_cek d) * 8 = ee_cek_size e) ->
+  perform_decrypt O g (obj_of o x) = Ok (e_plain o) /\
+  j_unprot (obj_of o x) = e_unprot o /\ j_aad (obj_of o x) = e_aad o /\ j_prot (obj_of o x) = e_prot o.
+Proof.
+  intros S R H Wp Wu RO SZ. split.
+  - eapply (single_rt O C g CH BT o d x r); eauto. intro E. rewrite S in E. discriminate.
+  - split; [reflexivity |]. split; [reflexivity |].
+    (* the protected header is not touched in a JSON serialization *)
+    assert (N : e_ser o <> Compact) by (rewrite S; discriminate).
+    unfold obj_of; simpl.
+    unfold perform_encrypt in H. inv_bind H. inv_bind H. inv_bind H.
+    match goal with y : (dict * bytes * list (recip * option jwe_alg_row))%type |- _ => destruct y as [[prot cek] acc] end.
+    inv_bind H. inv_bind H. inv_bind H. inv_bind H. inversion H; subst; simpl.
+    match goal with E : pre_loop _ _ _ _ _ _ _ _ _ _ _ _ = Ok _ |- _ => rename E into PL end.
+    rewrite R in PL. simpl in PL.
+    destruct (prepare_recipient_algorithm O g (e_ser o) (e_prot o) (e_unprot o) r) as [[[a p1] r1]|] eqn:P; [| discriminate].
+    destruct (prepare_json_inv O g _ _ _ _ _ _ _ N P) as [P1 _]. subst p1.
+    cbn [bind] in PL. cbv beta iota zeta in PL.
+    destruct (ea_direct a).
+    + simpl in PL. inv_bind PL. inversion PL; subst. reflexivity.
+    + destruct (is_agreement a).
+      * inversion PL; subst. reflexivity.
+      * inv_bind PL. match goal with E : encrypt_cek _ _ _ _ _ _ _ _ = Ok ?y |- _ => destruct y as [[p2 r2] ek];
+          pose proof (encrypt_cek_json_prot O a _ _ _ _ _ _ _ _ _ N E) as PP end.
+        cbv beta iota zeta in PL. inversion PL; subst. reflexivity.
+Qed.
+
+(* general JSON, n >= 2 recipients: that no recipient names a direct-mode algorithm follows from success *)
+Theorem general_rt_n o d x :
+  e_ser o <> Compact -> (1 < length (e_recips o))%nat ->
+  wf (e_prot o) -> hdr_wf (e_unprot o) -> oks O (e_recips o) (d_rec d) ->
+  (forall encv e, hitem (e_prot o) "enc" = Ok encv -> get_enc g encv = Ok e ->
+     lenN (d_civ d) * 8 = ee_iv_size e /\ lenN (d_cek d) * 8 = ee_cek_size e /\ ee_cek_size e <> 0) ->
+  perform_encrypt O g o d = Ok x ->
+  perform_decrypt O g (obj_of o x) = Ok (e_plain o) /\
+  length (x_recips x) = length (e_recips o) /\
+  (forall r', In r' (x_recips x) -> exists e, yields O g e (obj_of o x) r' (x_cek x)).
+Proof.
+  intros N L Wp Wu OK SZ H.
+  pose proof (nodirect_of_ok O g o d x N L H) as ND.
+  assert (RN : e_recips o <> []) by (destruct (e_recips o); [simpl in L; lia | discriminate]).
+  destruct (general_rt O C g CH BT o d x N RN ND Wp Wu OK SZ H) as [RT Y].
+  split; [exact RT |]. split; [| exact Y].
+  assert (DN : d_cek d <> []).
+  { pose proof (perform_encrypt_inv O g o d x H) as [encv [e [m [He [Ge _]]]]].
+    destruct (SZ encv e He Ge) as [_ [Lc NZ]]. intro E. rewrite E in Lc. simpl in Lc. congruence. }
+  destruct (perform_encrypt_multi_inv O g o d x N DN RN ND H) as [_ [_ [its [PR [e [encv [_ [_ PO]]]]]]]].
+  assert (L1 : length its = length (e_recips o)).
+  { clear - PR. induction PR; simpl; [reflexivity | f_equal; assumption]. }
+  assert (L2 : length its = length (x_recips x)).
+  { clear - PO. induction PO; simpl; [reflexivity | f_equal; assumption]. }
+  lia.
+Qed.
+
+End Serializations.
+
+(* ================= RSA keys below the size of the table row are refused at encryption time ========= *)
+Lemma rsa_small_key_refused O a s prot unprot r d cek bits :
+  fam_is (ea_family a) "RSA" = true -> check_key_type a (r_key r) = Ok tt ->
+  o_rsa_bits O (k_id (r_key r)) = Ok bits -> bits < key_size_of a ->
+  encrypt_cek O a s prot unprot r d cek = Err (EJose InvalidKeyLengthError).
+Proof.
+  intros F CK B L. unfold encrypt_cek. rewrite F, CK. cbn [bind]. rewrite B. cbn [bind].
+  assert (X : (bits <? key_size_of a) = true) by (apply N.ltb_lt; exact L). rewrite X. reflexivity.
+Qed.
